@@ -34,17 +34,32 @@ __delitem__ (vm.del_subscr handles only a constant str key that is present) /
 __ior__ (the stub's mutation widens K/V, but Dict does not lower the flag on a
 merge); List.pop / remove / reverse / sort / __delitem__.
 
-Small safe repair (not applied): lower the flag in a native slot and delegate
-to the stub, e.g. in Dict.__init__
-    for name in ("clear", "popitem", "__delitem__", "__ior__"):
-      self.set_native_slot(name, functools.partial(self._forget_slot, name))
-    def _forget_slot(self, name, node, *args):
+More confirmed inputs: `l = ["s", 1]; l.sort(key=str); l0 = l[0]` (1, pytype
+str); `f = {"a": 1}; g = f; f |= {"b": 2}; g0 = 1 if "b" in g else "s"` (1,
+pytype str: the alias still sees the old concrete Dict).
+
+Small repair (not applied; tried on a private copy of the scratch build,
+/tmp/val/c01_stale_pyval_repair.diff): one bound-method slot per mutator that
+lowers the flag and delegates to the stub (abstract.NativeFunction needs a
+bound method, functools.partial does not work):
+    # Dict.__init__
+    self.set_native_slot("clear", self.clear_slot)
+    self.set_native_slot("popitem", self.popitem_slot)
+    self.set_native_slot("__delitem__", self.delitem_slot)
+    def _forget(self, node, name, *args):
       self.is_concrete = False
       return self.call_pytd(node, name, *args)
-and the same in List.__init__ for ("pop", "remove", "reverse", "sort",
-"__delitem__") (sort takes keyword arguments: build function.Args with
-namedargs instead of call_pytd).  Lowering is global, not per branch, exactly
-like Dict.setitem with a non-constant key today.
+    def clear_slot(self, node): return self._forget(node, "clear")   # etc.
+    # List.__init__: pop / remove / reverse / __delitem__ the same way
+and overlays/typed_dict.py drops its own `set_native_slot("__delitem__", ..)`
+(TypedDict.delitem_slot then overrides Dict.delitem_slot; otherwise HasSlots
+asserts "slot already occupied").  With that, the six programs above infer
+Union[int, str] and the pass/fail set of upstream test_typed_dict, test_dict1/2,
+test_list1/2, constant_folding_test and 18 more test files is unchanged.
+`list.sort` (keyword arguments: needs function.Args with namedargs) and
+`dict.__ior__` still have to be added the same way for the rule to hold.
+Lowering is global, not per branch, exactly like Dict.setitem with a
+non-constant key today.
 
 Suggested keys for known_findings.json (if the rule is activated before the
 repair):  R1.26:unintercepted-mutators:Dict, R1.26:unintercepted-mutators:List
